@@ -30,6 +30,7 @@ type Solver struct {
 	Stats SolverStats
 	log   io.Writer // optional transcript
 	dead  bool
+	inPath bool
 }
 
 type SolverStats struct {
@@ -99,12 +100,13 @@ func (s *Solver) send(line string) {
 	io.WriteString(s.in, "\n")
 }
 
+// Reset starts a fresh path: everything asserted or declared since the previous Reset is dropped.
 func (s *Solver) Reset() {
-	s.send("(reset)")
-	s.send("(set-option :produce-models true)")
-	if s.name == "cvc5" {
-		s.send("(set-logic QF_UFBV)")
+	if s.inPath {
+		s.send("(pop 1)")
 	}
+	s.send("(push 1)")
+	s.inPath = true
 }
 
 func (s *Solver) Declare(name string, w int) {
